@@ -419,16 +419,22 @@ func (VaralignSplitter) parseVarnameOp(parser *MkParser, initial bool) (string, 
 	}
 
 	mark := lexer.Mark()
-	_ = parser.mklex.Varname()
-	// In the raw text, a '#' in the parameter of the variable name
-	// is still escaped as '\#', unlike in the parsed line.
-	for lexer.SkipString("\\#") {
-		for lexer.NextBytesSet(VarparamBytes) != "" || parser.mklex.Expr() != nil {
-		}
-	}
-	lexer.SkipHspace()
-	ok, _ := parser.Op()
+
+	// The variable name and the operator are parsed in the same text
+	// as in MkLineParser.matchVarassign, which is the line without its
+	// comment and with each '\#' unescaped. In the raw text, the
+	// variable name may seem to end somewhere else.
+	lineParser := NewMkLineParser()
+	main, _ := lineParser.unescapeComment(lexer.Rest())
+	main = rtrimHspace(main)
+	mainParser := NewMkParser(nil, main)
+	_ = mainParser.mklex.Varname()
+	mainParser.lexer.SkipHspace()
+	ok, _ := mainParser.Op()
 	assert(ok)
+	parsed := main[:len(main)-len(mainParser.lexer.Rest())]
+	lexer.Skip(len(lineParser.getRawValueAlign(lexer.Rest(), parsed)))
+
 	return lexer.Since(mark), lexer.NextHspace()
 }
 
